@@ -250,8 +250,21 @@ lemma srvImpliesDom(t string, p int, n nat)
 lemma nameInclusions(s string)
   apply hostImpliesSrv(toASCII(s), 0, len(toASCII(s)))
   apply srvImpliesDom(toASCII(s), 0, len(toASCII(s)))
-  ensures hostnameOK(s) ==> srvNameOK(s)
-  ensures srvNameOK(s) ==> domainNameOK(s)
+  ensures host_in_srv: hostnameOK(s) ==> srvNameOK(s)
+  ensures srv_in_domain: srvNameOK(s) ==> domainNameOK(s)
+
+// C02 items 1-2: the boolean twins agree with the error-returning validators
+// on every input (both are proved equal to the same grammar predicate; the
+// lemmas compose the two contracts on one symbolic input).
+lemma twinHostnameLabel(l string)
+  call b = IsValidHostnameLabel(l)
+  call e = ValidateHostnameLabel(l)
+  ensures agree: b <==> e == nil
+
+lemma twinHostname(s string)
+  call b = IsValidHostname(s)
+  call e = ValidateHostname(s)
+  ensures agree: b <==> e == nil
 
 spec fn hostnameOK(s string) bool = toASCIIok(s) && 1 <= len(toASCII(s)) && len(toASCII(s)) <= 253 && hostFrom(toASCII(s), 0)
 spec fn domainNameOK(s string) bool = toASCIIok(s) && 1 <= len(toASCII(s)) && len(toASCII(s)) <= 253 && domFrom(toASCII(s), 0)
